@@ -2246,7 +2246,8 @@ fn c14_layouts(ctx: &mut Ctx, known: &Known) {
     // `!!seq`, `!!null`) at every level: read alike from the text and from its value
     let base = "detection:\n  A:\n    foo: bar\n  condition: A\ntrue_positives: []\ntrue_negatives: []\n";
     let mut i = 200000;
-    for extra in ["1: x\n", "true: x\n", "~: x\n", "2.5: x\n", "other: x\n", "[a]: x\n", "{a: b}: x\n", "? [1, 2]\n: x\n", "!t k: x\n", "'1': x\n1: y\n", "null: ~\n", "optimised: true\n", "optimised: !!bool true\n", "optimised: 'true'\n", "optimised: yes\n", "optimised: 1\n", "optimised: ~\n", "optimised: !!str true\n", ".inf: x\n", "-0: x\n"] {
+    for extra in ["1: x\n2: y\n", "1: x\n2024: y\n~: z\n", "2024: x\n~: y\n", "true: x\nfalse: y\n", "1: x\nother: y\n2: z\n", "2.5: x\n1: y\ntrue: z\n~: w\n", "~: x\n.inf: y\n-0: z\n",
+        "1: x\n", "true: x\n", "~: x\n", "2.5: x\n", "other: x\n", "[a]: x\n", "{a: b}: x\n", "? [1, 2]\n: x\n", "!t k: x\n", "'1': x\n1: y\n", "null: ~\n", "optimised: true\n", "optimised: !!bool true\n", "optimised: 'true'\n", "optimised: yes\n", "optimised: 1\n", "optimised: ~\n", "optimised: !!str true\n", ".inf: x\n", "-0: x\n"] {
         i += 1;
         c14_compare_text(ctx, &format!("{}{}", base, extra), i);
         i += 1;
